@@ -479,6 +479,50 @@ pub fn check_storeless(case: &Case, tree: &Node, src: Option<&str>, cx: &mut Ctx
     None
 }
 
+/// C11, fault-free: a read-only evaluation must leave no trace that is observable through a
+/// clone of the context either (state shared between a context and its clones). A witness clone
+/// with the builtin switch flipped is observed (function probes, the program's own read-only
+/// result) before and after the read-only evaluation on the original. Reference-free.
+pub fn check_witness_clone(case: &Case, tree: &Node, cx: &mut Ctx) -> Option<Finding> {
+    use evalexpr::Context;
+    if !case.kind.has_user_state() {
+        return None;
+    }
+    let rec: crate::env::Rec = std::sync::Arc::new(std::sync::Mutex::new(crate::env::Recorder::default()));
+    let ctx = case.setup.build(&rec);
+    let mut witness = ctx.clone();
+    witness
+        .set_builtin_functions_disabled(!case.setup.builtins_disabled)
+        .ok()?;
+    let observe = |w: &evalexpr::HashMapContext| -> Outcome {
+        let (result, panicked) = crate::env::guarded(|| tree.eval_with_context(w));
+        Outcome {
+            result,
+            log: vec![],
+            vars: crate::env::snapshot_vars(w),
+            fns: crate::env::snapshot_fns(w),
+            fired: vec![],
+            panicked,
+        }
+    };
+    let before = observe(&witness);
+    let _ = crate::env::guarded(|| tree.eval_with_context(&ctx));
+    let after = observe(&witness);
+    cx.stats.add("evaluations_real", 3);
+    cx.stats.inc("c11.witness_clone_checked");
+    if before != after {
+        return Some(finding(
+            Prop::C11,
+            "mutated-context",
+            "read-only-evaluation-observable-through-clone",
+            &[],
+            &before,
+            &after,
+        ));
+    }
+    None
+}
+
 /// Which seam calls of a fault-free history can be failed for this context kind.
 pub fn fault_positions(log: &[Ev]) -> Vec<usize> {
     (0..log.len()).collect()
@@ -509,6 +553,11 @@ pub fn check_case(
     cx.stats.inc("plans.fault_free");
     if base.finding.is_some() {
         return base.finding;
+    }
+    if prop == Prop::C11 {
+        if let Some(f) = check_witness_clone(case, &tree, cx) {
+            return Some(f);
+        }
     }
     if prop == Prop::C11 && base.mut_agrees {
         if let Some(f) = check_storeless(case, &tree, src_ref, cx) {
